@@ -103,7 +103,7 @@ RE_META_CONTENT_FIRST = re.compile(
 )
 
 RE_ENCODING = re.compile(
-    br'encoding\s*=\s*(?:"|\')(?P<encoding>[\w\-]+)(?:"|\')',
+    br'encoding\s*=\s*(?:"|\')(?P<encoding>[\w.\-]+)(?:"|\')',
     re.IGNORECASE
 )
 
